@@ -52,6 +52,16 @@ def J.nativePairs : List (Str × J) → Bool
   | kv :: rest => kv.2.native && J.nativePairs rest
 end
 
+/-- the environment of the dictionary layer: the binding environment, plus the converters of
+the types this layer does not model itself (`TypeRef.other name`: Decimal, bytes, the Xml* types,
+enumerations, …).  `other name s` is `converter.serialize(converter.deserialize(s, [T]))`: the
+canonical lexical form of the value the string `s` denotes for the type called `name`, `none` when
+`deserialize` raises ConverterError.  A value of such a type is represented in `Val` by its
+canonical lexical form (`Val.prim (.str x)`); the round trip theorems of the converter models
+(C05: `deserialize (serialize v) = v`) say that `serialize v` is a fixed point of it. -/
+structure DEnv extends BEnv where
+  other : Str → Str → Option Str := fun _ _ => none
+
 /-- `d[k] = v` on an insertion-ordered dict -/
 def kvSet {α} (d : List (Str × α)) (k : Str) (v : α) : List (Str × α) :=
   if d.any (·.1 = k) then d.map (fun kw => if kw.1 = k then (kw.1, v) else kw) else d ++ [(k, v)]
